@@ -112,6 +112,9 @@ def evaluate(f, t, env=None, self_local=None, depth=0):
             if key in env:
                 return set(env[key])
             return type_range(f, field_type(f, inner))
+        if inner[0] == "call" and inner[2] in f.bodies:
+            # discriminant of a value returned by a local function: range of its return type
+            return type_range(f, f.bodies[inner[2]].locals[0]["ty"])
         return None
     if k == "field":
         key = (t[3], t[2])
